@@ -191,7 +191,7 @@ def symptom(ev, expected):
 # switched on one at a time; a violation's signature is "<defective features of the case>/<symptom>"
 
 CORE_OFF = ["nodirid", "nofragdirs"]
-DEFECT_TAGS = {"dir-on-id": "dirid", "frag-dir": "fragdirs", "abstract": "abstract", "rootnode": "rootnode"}
+DEFECT_TAGS = {"dir-on-id": "dirid", "frag-dir": "fragdirs", "abstract": "abstract", "rootnode": "rootnode", "nested-list": "nestedlists"}
 STRATA = {
     # name: (features, share of the budget)
     "core": (CORE_OFF + ["oddids", "biglists", "richargs"], 0.5),
@@ -200,6 +200,8 @@ STRATA = {
     "abstract": (CORE_OFF + ["abstract", "richargs"], 0.2),
     # queries through the Relay entry point node(id:) at the root
     "rootnode": (CORE_OFF + ["rootnode"], 0.1),
+    # fields of type [[T]]
+    "nestedlists": (CORE_OFF + ["nestedlists"], 0.06),
 }
 
 
